@@ -152,6 +152,59 @@ def expectedContractSites : List (String × String × String × List String × L
 /-- normalised source of `kraus_identity_check` -/
 def expectedKrausCheckSource : List String := ["tol=1e-06", "dim = operators[0].shape[0]", "identity_matrix = jnp.eye(dim)", "sum_kraus = sum((jnp.matmul(jnp.conjugate(K.T), K) for K in operators))", "return jnp.allclose(sum_kraus, identity_matrix, atol=tol).item()"]
 
+/-- request validation: every `raise` directly under an `if` (file, class.function, test, exception) -/
+def expectedGuards : List (String × String × String × String) := [
+  ("photon_weave/state/base_state.py", "BaseState.apply_kraus", "not kraus_identity_check(operators)", "ValueError"),
+  ("photon_weave/state/base_state.py", "BaseState.apply_kraus", "not op.shape == (self.dimensions, self.dimensions)", "ValueError"),
+  ("photon_weave/state/composite_envelope.py", "ProductState.apply_operation", "not jnp.any(jnp.abs(ps) > 1e-12)", "ValueError"),
+  ("photon_weave/state/composite_envelope.py", "ProductState.apply_operation", "not jnp.any(jnp.abs(ps) > 1e-12)", "ValueError"),
+  ("photon_weave/state/composite_envelope.py", "CompositeEnvelope._check_members", "not any((s is m for m in members))", "ValueError"),
+  ("photon_weave/state/composite_envelope.py", "CompositeEnvelope.measure_POVM", "op.shape != (dim, dim)", "ValueError"),
+  ("photon_weave/state/composite_envelope.py", "CompositeEnvelope.apply_kraus", "len(states) != len(list(set(states)))", "ValueError"),
+  ("photon_weave/state/composite_envelope.py", "CompositeEnvelope.apply_kraus", "op.shape != (dim, dim)", "ValueError"),
+  ("photon_weave/state/composite_envelope.py", "CompositeEnvelope.apply_kraus", "not kraus_identity_check(operators)", "ValueError"),
+  ("photon_weave/state/composite_envelope.py", "CompositeEnvelope.resize_fock", "not isinstance(fock, Fock)", "ValueError"),
+  ("photon_weave/state/composite_envelope.py", "CompositeEnvelope.resize_fock", "fock not in self.state_objs", "ValueError"),
+  ("photon_weave/state/composite_envelope.py", "CompositeEnvelope.resize_fock", "len(ps) != 1", "ValueError"),
+  ("photon_weave/state/custom_state.py", "CustomState.dimensions", "self._dimensions_set", "ValueError"),
+  ("photon_weave/state/custom_state.py", "CustomState.apply_kraus", "not kraus_identity_check(operators)", "ValueError"),
+  ("photon_weave/state/custom_state.py", "CustomState.apply_kraus", "op.shape != (self.dimensions, self.dimensions)", "ValueError"),
+  ("photon_weave/state/custom_state.py", "CustomState.apply_operation", "not jnp.any(jnp.abs(new_state) > 1e-12)", "ValueError"),
+  ("photon_weave/state/custom_state.py", "CustomState.apply_operation", "not jnp.any(jnp.abs(new_state) > 1e-12)", "ValueError"),
+  ("photon_weave/state/envelope.py", "Envelope.combine", "s.measured", "ValueError"),
+  ("photon_weave/state/envelope.py", "Envelope.measure", "self.measured", "ValueError"),
+  ("photon_weave/state/envelope.py", "Envelope.measure", "s is not self.polarization and s is not self.fock", "ValueError"),
+  ("photon_weave/state/envelope.py", "Envelope.measure_POVM", "self.measured", "ValueError"),
+  ("photon_weave/state/envelope.py", "Envelope.measure_POVM", "isinstance(states[0], Fock) and isinstance(states[1], Fock) or (isinstance(states[0], Polarization) and isinstance(states[1], Polarization))", "ValueError"),
+  ("photon_weave/state/envelope.py", "Envelope.measure_POVM", "len(states) > 2", "ValueError"),
+  ("photon_weave/state/envelope.py", "Envelope.measure_POVM", "s is not self.polarization and s is not self.fock", "ValueError"),
+  ("photon_weave/state/envelope.py", "Envelope.apply_kraus", "not kraus_identity_check(operators)", "ValueError"),
+  ("photon_weave/state/envelope.py", "Envelope.apply_kraus", "isinstance(states[0], Fock) and isinstance(states[1], Fock) or (isinstance(states[0], Polarization) and isinstance(states[1], Polarization))", "ValueError"),
+  ("photon_weave/state/envelope.py", "Envelope.apply_kraus", "len(states) > 2", "ValueError"),
+  ("photon_weave/state/envelope.py", "Envelope.apply_kraus", "s is not self.polarization and s is not self.fock", "ValueError"),
+  ("photon_weave/state/envelope.py", "Envelope.apply_kraus", "op.shape != (dim, dim)", "ValueError"),
+  ("photon_weave/state/envelope.py", "Envelope.reorder", "isinstance(states_list[0], Fock) and isinstance(states_list[1], Fock) or (isinstance(states_list[0], Polarization) and isinstance(states_list[1], Polarization))", "ValueError"),
+  ("photon_weave/state/envelope.py", "Envelope.reorder", "len(states_list) > 2", "ValueError"),
+  ("photon_weave/state/envelope.py", "Envelope.reorder", "s not in [self.polarization, self.fock]", "ValueError"),
+  ("photon_weave/state/envelope.py", "Envelope.trace_out", "s is not self.polarization and s is not self.fock", "ValueError"),
+  ("photon_weave/state/envelope.py", "Envelope.apply_operation", "s is not self.polarization and s is not self.fock", "ValueError"),
+  ("photon_weave/state/envelope.py", "Envelope.apply_operation", "not isinstance(states[0], Fock)", "ValueError"),
+  ("photon_weave/state/envelope.py", "Envelope.apply_operation", "not isinstance(states[0], Polarization)", "ValueError"),
+  ("photon_weave/state/envelope.py", "Envelope.apply_operation", "not jnp.any(jnp.abs(ps) > 1e-12)", "ValueError"),
+  ("photon_weave/state/envelope.py", "Envelope.apply_operation", "not jnp.any(jnp.abs(ps) > 1e-12)", "ValueError"),
+  ("photon_weave/state/fock.py", "Fock.apply_operation", "not jnp.any(jnp.abs(new_state) > 1e-12)", "ValueError"),
+  ("photon_weave/state/fock.py", "Fock.apply_operation", "not jnp.any(jnp.abs(new_state) > 1e-12)", "ValueError"),
+  ("photon_weave/state/polarization.py", "Polarization.apply_operation", "not jnp.any(jnp.abs(new_state) > 1e-12)", "ValueError"),
+  ("photon_weave/state/polarization.py", "Polarization.apply_operation", "not jnp.any(jnp.abs(new_state) > 1e-12)", "ValueError"),
+  ("photon_weave/operation/operation.py", "Operation.__init__", "param not in kwargs", "KeyError"),
+  ("photon_weave/operation/operation.py", "Operation.operator", "self._operation_type is not FockOperationType.Custom", "ValueError")
+]
+
+/-- the membership test of an envelope is by identity (`is not`), in every method that takes operands -/
+def envelopeMembershipGuarded (t : List (String × String × String × String)) : Bool :=
+  ["Envelope.measure", "Envelope.measure_POVM", "Envelope.apply_kraus", "Envelope.trace_out", "Envelope.apply_operation"].all fun m =>
+    t.any fun r => r.2.1 == m && r.2.2.1 == "s is not self.polarization and s is not self.fock" && r.2.2.2 == "ValueError"
+
 /-- a site that contracts density matrices: one purity test, one eigenvalue pick, the same symbol
 `tol` (default `1e-06`) in both -/
 def siteConsistent (site : String × String × String × List String × List String) : Bool :=
